@@ -41,7 +41,12 @@ def handleTokens (inp : List String) (obs : String) : Verdict :=
       let m := maskDisk (modelRender r)
       let impl := maskDisk (implRender implToks)
       let fired := w.flt.isSome && r.final.flt.isNone
-      let tags := [if w.conc then "concurrent" else "sequential",
+      -- the cycle in which the failure surfaced (model): Clear calls completed before it
+      let firstErr := r.outs.findIdx? (fun o => o.res == .ioerr)
+      let errCycle : List String := match firstErr with
+        | some i => [s!"error-in-cycle{min (((w.ops.take i).filter (· == Op.clear)).length + 1) 3}"]
+        | none => []
+      let tags := errCycle ++ [if w.conc then "concurrent" else "sequential",
                    match w.flt with | some (p, _) => "fault-" ++ (reprStr p).replace "Biogo.MorassConc.Pt." "" | none => "no-fault"]
                   ++ (if fired then ["fault-fired", "nt"] else [])
                   ++ (if w.aclean then ["autoclean"] else []) ++ (if w.ac then ["autoclear"] else [])
